@@ -32,14 +32,14 @@ if h:
 c.finish(
     assumptions=[
         "H-regexp: Go's regexp package implements markerRegexp / startRegexp as the hand-written matcher SeqScan.line_marker / start_here does",
-        "H-parse (theorems): the object parser is suffix-stable on complete chunks, fails with Malformed or EOF on proper prefixes of a chunk and never returns another error class on in-memory data; exercised on the implementation for every cut",
+        "H-parse (theorems): the object parser is suffix-stable on complete chunks, fails with Malformed or EOF on proper prefixes of a chunk and never returns another error class on in-memory data; exercised on the implementation for every cut. It is not instantiated with a concrete Coq parser: suffix stability for all dictionary/array/string/name/number/stream chunks is C01's object-syntax round trip (a second object-syntax model would be needed here), and for streams with an indirect /Length the outcome is not a function of the chunk alone (it depends on whether the length object lies in the file)",
         "theorems are about scanner.Find with its buffer windows (SeqScan.scan_windows) and hold for tame files whose header lies within the first 1024 bytes: at every line start no marker text followed by a word character, and no marker text longer than regexpOverlap = 64 bytes; tameness is evaluated for every generated file (windowed_vs_ideal_and_tameness)",
         "writer-shaped files: no object streams; chunk interiors free of an EOL followed by a marker",
     ],
     trusted=[
         "hand-written Gallina model coq/C20/SeqScan.v of sequential.go / scanner.Find, tied by correspondence on every truncation offset",
         "Gen_Scan.v (scannerBufSize, regexpOverlap), Gen_Consts.v (maxXRefSize, maxGeneration) regenerated from the Go source on every run",
-        "the outcome of scanner.ReadIndirectObject at each located candidate is taken from the implementation (verif hook FileInfo.VerifParse), not modelled",
+        "the outcome of scanner.ReadIndirectObject at each located candidate, of reading each xref stream object and of readTrailer at each trailer position is taken from the implementation (verif hooks), not modelled; which trailer is chosen (getTrailer) is modelled and proved",
     ],
     partial=[
         "window_pre_F24_refuted documents the pre-fix variant of the model (scan_windows_pre_F24); no theorem about the current code is partial",
